@@ -356,9 +356,11 @@ where
             outgoing_batch.push(next_msg);
           }
 
-          // Then, if there is still room, top up from the core_pipe_manager
+          // Then, if there is still room, top up from the core_pipe_manager. Messages still waiting in
+          // core_carryover are older than anything in the pipe, so the pipe may only be tapped once the
+          // carry-over is empty: otherwise newer messages would overtake them.
           let start_len = outgoing_batch.len();
-          if start_len < max_count && total_bytes < logical_max_bytes {
+          if core_carryover.is_empty() && start_len < max_count && total_bytes < logical_max_bytes {
             // Dynamically calculate actual remaining slots based on the average size of current messages
             let avg_size = if start_len > 0 {
               total_bytes / start_len
